@@ -330,6 +330,11 @@ def build_prog(ctx):
     return common.build_full(ctx, "h_errprog", ["errprog.cpp"], extra=["-ldl"])
 
 
+def prog_line(prog):
+    """the harness command of one program; `frames` (optional) = host frames pumped after the start (default 12)"""
+    return "prog " + prog["src"].encode("latin-1", "replace").hex() + (" %d" % prog["frames"] if prog.get("frames") else "")
+
+
 def opcode_names():
     names, table = vmopsgen.parse_opcodes()
     return names
@@ -373,7 +378,7 @@ class ProgMonitor:
         log = [e for e in f.get("log", "").split("|") if e]
         outs = [e[2:] for e in log if e.startswith("O:")]
         if f.get("sentinel") != "1":
-            bad.append(("prog-sentinel", "the sentinel script did not compile and run after the program"))
+            bad.append(("prog-sentinel", "the sentinel script did not compile, run and get resumed after its wait once the program was over"))
         ends = [e for e in f.get("ends", "").split(",") if e]
         if any(e != "0" and not e.startswith("k") for e in ends):
             bad.append(("prog-stack-at-end", "a thread ended with a non-empty operand stack: %s" % ends))
@@ -418,7 +423,7 @@ def shrink_program(run_sig, prog, sig0, budget=160):
                 continue
             cand = lines[:i] + lines[i + 1:]
             tests += 1
-            if sig0 in run_sig({"src": "\n".join(cand), "threads": prog["threads"]}):
+            if sig0 in run_sig({"src": "\n".join(cand), "threads": prog["threads"], "frames": prog.get("frames")}):
                 lines = cand
                 changed = True
             else:
@@ -436,7 +441,7 @@ def program_level(ctx, info):
     progs = []
     for p in sorted(glob.glob(os.path.join(VERIF, "corpus", "C04", "prog-*.json"))):
         o = json.load(open(p))
-        progs.append(("corpus:" + os.path.basename(p), {"src": o["src"], "threads": o.get("threads", [])}))
+        progs.append(("corpus:" + os.path.basename(p), {"src": o["src"], "threads": o.get("threads", []), "frames": o.get("frames")}))
     for name, body in untypedgen.TARGETED:
         progs.append(("targeted:" + name, untypedgen.targeted_program(name, body)))
     nrand = 1000 if quick else 45000
@@ -445,7 +450,7 @@ def program_level(ctx, info):
     ctx.stats["programs"] = len(progs)
 
     def run_one(prog):
-        out, crash, infotext = common.run_lines(exe, [], ["prog " + prog["src"].encode("latin-1", "replace").hex()], timeout=60)
+        out, crash, infotext = common.run_lines(exe, [], [prog_line(prog)], timeout=60)
         return out, crash, infotext
 
     def sigs_of(prog):
@@ -463,7 +468,7 @@ def program_level(ctx, info):
     B = 25
     for i in range(0, len(progs), B):
         batch = progs[i:i + B]
-        lines = ["prog " + p["src"].encode("latin-1", "replace").hex() for _, p in batch]
+        lines = [prog_line(p) for _, p in batch]
         out, crash, infotext = common.run_lines(exe, [], lines, timeout=120)
         results = []
         if crash is None and len(out) == len(batch):
@@ -486,9 +491,9 @@ def program_level(ctx, info):
                 t0 = _t.time()
                 small = shrink_program(sigs_of, p, sig)
                 t_fail += _t.time() - t0
-                so, sc, si = run_one({"src": small})
+                so, sc, si = run_one({"src": small, "frames": p.get("frames")})
                 replay = common.save_replay(ctx, {
-                    "property": ctx.prop_id, "kind": "program", "case": n, "src": small, "threads": p["threads"],
+                    "property": ctx.prop_id, "kind": "program", "case": n, "src": small, "threads": p["threads"], "frames": p.get("frames"),
                     "observed": so[0] if so else "", "crash": sc, "crash_info": si if sc else "", "signature": sig, "why": why,
                     "how_to_replay": "python3 tools/check.py C04 --replay <this file>"})
                 ctx.violations.append({"signature": sig, "replay": replay, "why": why, "found_input": True})
@@ -608,7 +613,7 @@ def replay(ctx, obj):
     common.lake_build(["driver"])
     if obj.get("kind") == "program":
         exe = build_prog(ctx)
-        out, crash, info = common.run_lines(exe, [], ["prog " + obj["src"].encode("latin-1", "replace").hex()], timeout=60)
+        out, crash, info = common.run_lines(exe, [], [prog_line(obj)], timeout=60)
         print(obj["src"])
         print("observed:", (out[0] if out else "<none>").replace("|", "\n    "))
         if crash:
